@@ -38,6 +38,53 @@ type rec struct {
 	Stream []elem   `json:"stream"`
 	Digits []string `json:"digits"`
 	Canon  bool     `json:"canon"`
+	Skip   string   `json:"skip"` // corrupt: verdict of Skip(1) on the corrupted input
+	Item   *item    `json:"item"` // raw: the item whose encoding is handed to the writer
+}
+
+type item struct {
+	K     string `json:"k"`
+	N     int    `json:"n"`
+	C     string `json:"c"`
+	Items []item `json:"items"`
+}
+
+// rawItem implements codec.Marshaler / codec.Unmarshaler: it carries the raw encoding of one item
+type rawItem struct{ bs []byte }
+
+func (r *rawItem) MarshalRLP() ([]byte, error) { return r.bs, nil }
+func (r *rawItem) UnmarshalRLP(bs []byte) error {
+	r.bs = append([]byte{}, bs...)
+	return nil
+}
+
+// mirror node of a spec item with fresh payloads (appended to *payloads in encoding order)
+func nodeOf(it item, rnd *rand.Rand, payloads *[][]byte) *node {
+	switch it.K {
+	case "b":
+		p := genPayload(it.N, it.C, rnd)
+		if it.N > 0 {
+			*payloads = append(*payloads, p)
+		}
+		return &node{kind: "b", payload: p}
+	case "nil":
+		return &node{kind: "nil"}
+	}
+	n := &node{kind: "l"}
+	for _, c := range it.Items {
+		n.items = append(n.items, nodeOf(c, rnd, payloads))
+	}
+	return n
+}
+
+// payloads of a subtree in encoding order
+func payloadsOf(n *node, acc *[][]byte) {
+	if n.kind == "b" && len(n.payload) > 0 {
+		*acc = append(*acc, n.payload)
+	}
+	for _, c := range n.items {
+		payloadsOf(c, acc)
+	}
 }
 
 type node struct {
@@ -227,6 +274,18 @@ func runStream(steps []rec, variant int, rnd *rand.Rand, begin func(string)) *fa
 				return &fail{true, "enc:nil", err.Error()}
 			}
 			ntop.items = append(ntop.items, &node{kind: "nil"})
+		case "raw":
+			var own [][]byte
+			n := nodeOf(*r.Item, rnd, &own)
+			raw, err := concStream(r.Stream, own)
+			if err != nil {
+				return &fail{false, "model:stream", err.Error()}
+			}
+			if err := etop.Encode(&rawItem{raw}); err != nil {
+				return &fail{true, "enc:raw", err.Error()}
+			}
+			ntop.items = append(ntop.items, n)
+			payloads = append(payloads, own...)
 		case "list":
 			e2, err := etop.EncodeList()
 			if err != nil {
@@ -266,7 +325,7 @@ func runStream(steps []rec, variant int, rnd *rand.Rand, begin func(string)) *fa
 				}
 			}
 			dstack = []codec.Decoder{newDecoder(good)}
-		case "dbytes", "dlist", "dskip", "dpop":
+		case "dbytes", "dlist", "dskip", "dpop", "draw":
 			if f := decCall(r, i, variant, root, &dstack); f != nil {
 				return f
 			}
@@ -279,6 +338,9 @@ func runStream(steps []rec, variant int, rnd *rand.Rand, begin func(string)) *fa
 			var diffs []string
 			if rej := traverse(newDecoder(bad), root.items, &diffs); !rej {
 				return &fail{true, "malformed:" + r.C + ":stream", fmt.Sprintf("%s stream %x..(%d bytes, original %d) is read to the end without error: %v", r.C, head(bad), len(bad), len(good), diffs)}
+			}
+			if err := newDecoder(bad).Skip(1); (err == nil) != (r.Skip == "ok") {
+				return &fail{true, "malformed:" + r.C + ":skip", fmt.Sprintf("Skip(1) over %s stream %x..(%d bytes, original %d) returns %v, spec says %s", r.C, head(bad), len(bad), len(good), err, r.Skip)}
 			}
 			if fl, ok := flat(root.items[0]); ok {
 				var back [][]byte
@@ -374,6 +436,20 @@ func decCall(r rec, i, variant int, root *node, dstack *[]codec.Decoder) *fail {
 				return &fail{true, "malformed:bytes-as-list", fmt.Sprintf("%s: a string read as list, err=%v", where, err)}
 			}
 		}
+	case "draw":
+		if !have {
+			return &fail{false, "model:path", where}
+		}
+		var own [][]byte
+		payloadsOf(item, &own)
+		want, err := concStream(r.Stream, own)
+		if err != nil {
+			return &fail{false, "model:stream", err.Error()}
+		}
+		var ri rawItem
+		if err := d.Decode(&ri); err != nil || !bytes.Equal(ri.bs, want) {
+			return &fail{true, "roundtrip:raw", fmt.Sprintf("%s: raw item is %x..(%d bytes, err=%v), spec says %x..(%d bytes)", where, head(ri.bs), len(ri.bs), err, head(want), len(want))}
+		}
 	case "dskip":
 		if err := d.Skip(1); err != nil {
 			return &fail{true, "roundtrip:skip", fmt.Sprintf("%s: %v", where, err)}
@@ -395,16 +471,18 @@ func concDigit(cls string, variant int, rnd *rand.Rand) byte {
 	switch cls {
 	case "z":
 		return 0
+	case "o":
+		return 1
 	case "f":
 		return 0xff
 	case "p":
 		switch variant {
 		case 0:
-			return 0x01
+			return 0x02
 		case 1:
 			return 0x7f
 		}
-		return byte(1 + rnd.Intn(0x7f))
+		return byte(2 + rnd.Intn(0x7e)) // 01 is the class "o"
 	}
 	switch variant {
 	case 0:
@@ -417,6 +495,12 @@ func concDigit(cls string, variant int, rnd *rand.Rand) byte {
 
 func target(kind string, w int) reflect.Value {
 	switch fmt.Sprintf("%s%d", kind, w) {
+	case "bool1":
+		return reflect.ValueOf(new(bool))
+	case "int0":
+		return reflect.ValueOf(new(int))
+	case "uint0":
+		return reflect.ValueOf(new(uint))
 	case "int1":
 		return reflect.ValueOf(new(int8))
 	case "int2":
@@ -454,10 +538,15 @@ func runScalar(r rec, variant int, rnd *rand.Rand) (string, *fail) {
 		ref.Sub(ref, new(big.Int).Lsh(big.NewInt(1), uint(8*len(bs))))
 	}
 	got := new(big.Int)
-	if r.C == "int" {
+	switch r.C {
+	case "int":
 		got.SetInt64(tv.Elem().Int())
-	} else {
+	case "uint":
 		got.SetUint64(tv.Elem().Uint())
+	default:
+		if tv.Elem().Bool() {
+			got.SetInt64(1)
+		}
 	}
 	if r.Res == "reject" {
 		if err == nil {
